@@ -12,6 +12,7 @@ import PMC.Model.BDD
 import PMC.Model.Parser
 import PMC.Generated.Grammar
 import PMC.Model.Classes
+import PMC.Model.Fair
 import PMC.Generated.ClassTable
 open PMC
 
@@ -281,6 +282,15 @@ def decMixedOperand (s : String) : Option (Logic × Fm) :=
 def decMixedOperands (s : String) : Option (List (Logic × Fm)) :=
   ((s.splitOn ";").filter (fun t => !(words t).isEmpty)).mapM decMixedOperand
 
+/-- fairness constraints `<F>`: `none` is `F=None`; `-` is the empty list of constraints `[]`; otherwise a
+    `;`-separated list of sets, each a blank-separated list of state numbers, the empty set being written `e`
+    (so `e` is `[set()]`, `0 1;e;2` is `[{0,1}, set(), {2}]`). -/
+def decFair (s : String) : Option (List (List Nat)) :=
+  let t := s.trimAscii.toString
+  if t == "none" then none
+  else if t == "-" then some []
+  else some ((t.splitOn ";").map natList)
+
 /-! ### dispatch -/
 
 def step (line : String) : String :=
@@ -366,6 +376,30 @@ def step (line : String) : String :=
           | "LTL" => encUnit (Classes.guardLTL Classes.generatedTable m f k)
           | "CTLS" => encUnit (Classes.guardCTLS Classes.generatedTable m f k)
           | _ => "bad-op")
+       | _, _ => "bad-op")
+  | ["FAIRSTATES", g, l, fc] =>
+      (match decFair fc with
+       | some F =>
+         let K := decKripke g l
+         "impl: " ++ encSet (Fair.fairStatesImpl K F) ++ " spec: " ++ encSet (Fair.fairStatesSpec K F)
+       | none => "bad-op")
+  | ["FAIRLABEL", g, l] => encName (Fair.fairLabel (decKripke g l))
+  | ["CTLF", g, l, fc, f] =>
+      (match decFm f with
+       | some f => encExcept encSet (CTL.modelcheckF (decKripke g l) (decFair fc) f)
+       | none => "bad-formula")
+  | ["LTLF", g, l, fc, f] =>
+      (match decFm f with
+       | some f => encExcept encSet (LTL.modelcheckF (decKripke g l) (decFair fc) f)
+       | none => "bad-formula")
+  | ["CTLSF", g, l, fc, f] =>
+      (match decFm f with
+       | some f => encExcept encSet (CTLS.modelcheckF (decKripke g l) (decFair fc) f)
+       | none => "bad-formula")
+  | ["NONFAIR", m, fair, f] =>
+      (match decLogic m, decFm f with
+       | some .CTL, some f => encExcept encFm (Fair.nonFairCTL (decName fair) f)
+       | some _, some f => encFm (Fair.nonFairCTLS (decName fair) f)
        | _, _ => "bad-op")
   | ["BDD", names, ops] =>
       " ; ".intercalate (bddHistory (words names).toArray ((ops.splitOn ";").map (·.trimAscii.toString)))
